@@ -6,6 +6,7 @@ Quantifiers: all pairs of operations, all natural slice bounds and `None`, all s
 over truthful leaves, any row list).
 -/
 import DafRel.Lemmas.FinishApply
+import DafRel.Bridge.Kernel
 
 namespace DafRel.Props.C05
 
@@ -76,6 +77,20 @@ theorem finishApply_sound (σ : Leaves) (t : Rel) (op : UOp) (hwf : t.WF) (htr :
 theorem finishApply_rejects_only_unsupported (σ : Leaves) (t : Rel) (op : UOp) (hwf : t.WF)
     (hop : op.wfOn t.columns = true) (e : Err) (h : op.finishApply t = .error e) : e = .engine :=
   DafRel.finishApply_error σ t op hwf hop e h
+
+/-! ### Tie to the source: the regenerated `Slice.then` / `Slice.__post_init__` are the model's -/
+
+/-- The Python `Slice.then` (translated from the current source by harness/extract.py) computes
+exactly the model's `sliceThen`, for all bounds. -/
+theorem bridge_Slice_then (s1 : Nat) (e1 : Option Nat) (s2 : Nat) (e2 : Option Nat) :
+    Gen.Slice_then (.int s2) (Bridge.optN e2) (.int s1) (Bridge.optN e1)
+      = Bridge.sliceObj (UOp.sliceThen s1 e1 s2 e2) :=
+  Bridge.Slice_then_eq s1 e1 s2 e2
+
+/-- The Python `Slice(start, stop)` constructor check is the model's `mkSlice`. -/
+theorem bridge_Slice_new (s : Int) (e : Option Int) :
+    Gen.Slice_new (.int s) (Bridge.optI e) = Bridge.sliceObj (UOp.mkSlice s e) :=
+  Bridge.Slice_new_eq s e
 
 /-! ### Non-vacuity -/
 
